@@ -267,6 +267,10 @@ def gen_c17(tier, seed):
                 ev.append("E 0 5 E 0")
             ops.append("Z 30")
             meta["expect_eof"] = 1 if ev else 0
+            if r.random() < 0.3:
+                # the kernel accepts only part of one of the start-up writes: the rest must follow
+                meta["short"] = r.randrange(3)
+                ev.insert(0, "F 0 write %d 50000" % meta["short"])
         elif k == 1:
             # read on: empty / partly filled / far side closed
             st = r.choice([1, 2]) if o["err"] == R_PIPE else 1
@@ -317,7 +321,7 @@ def gen_c17(tier, seed):
         else:
             # idle child, never reads or writes
             ops += ["RD 0 1 10" if nb else "WR 0 10", "WR 0 %d" % r.choice([10, 70000]), "WR 0 65536" if nb else "Z 1"]
-        parts = ["N 0", start_tokens(0, o)] + ev + ops + ["D 0"]
+        parts = [e for e in ev if e.startswith("F ")] + ["N 0", start_tokens(0, o)] + [e for e in ev if not e.startswith("F ")] + ops + ["D 0"]
         meta["handles"] = {0: o}
         cases.append(Case("c17-%d" % i, " ; ".join(parts), meta, "c17/%d/%d/%d" % (nb, k, i)))
     return cases
